@@ -20,6 +20,17 @@ from .model import Program, AnalysisError
 from . import report
 
 
+_PROGRAM = None
+
+
+def _program():
+    """one model of /repo's working tree per process (--all checks 20 properties against the same parse)"""
+    global _PROGRAM
+    if _PROGRAM is None:
+        _PROGRAM = Program()
+    return _PROGRAM
+
+
 def run_property(prop, tier, seed, quiet=False):
     from . import props
 
@@ -27,7 +38,7 @@ def run_property(prop, tier, seed, quiet=False):
     spec = props.PROPS.get(prop)
     if spec is None:
         raise AnalysisError(f"unknown or unclaimed property {prop}")
-    P = Program()
+    P = _program()
     if P.dynamic_sites:
         raise AnalysisError(f"dynamic attribute tricks in the package (assumption A5): {P.dynamic_sites}")
     results = report.run_rules(P, spec["rules"])
